@@ -5,9 +5,9 @@ EXPLANATION = ("Sequential contracts of the channel queue operations and of refe
 ASSUMPTIONS = [
     "R-lock: each body is verified as the critical section under its Mutex; interleavings of critical sections are covered by the history lemmas (any order of operations), lock acquisition/poisoning is not modelled",
     "Thread::deep_clone_value returns a structurally equal copy (assumed contract; see C13 for its share-or-copy guard)",
-    "lazy values: the three synchronous pieces of force are under contract (R-arm): the arm that starts the evaluation (its `async move` block replaced by a stand-in), the arms for a value that is being evaluated / already computed (the waiter's continuation replaced by a stand-in), and the failure arm of the computation. oneshot::channel/shared/clone are given their channel identity as assumed contracts; thread identity is the thread's address. That the waiters are actually fired (the sender is consumed either way), the waiter continuation and coroutine spawn/resume/yield are NOT covered",
+    "lazy values: the three synchronous pieces of force are under contract (R-arm): the arm that starts the evaluation (its `async move` block replaced by a stand-in), the arms for a value that is being evaluated / already computed (the waiter's continuation replaced by a stand-in), and the failure arm of the computation. oneshot::channel/shared/clone are given their channel identity as assumed contracts; thread identity is the thread's address. That the waiters are actually fired (the sender is consumed either way), the waiter continuation and coroutine spawn/yield are NOT covered; `recv` has its `.map_err(|_| ()).map(Unrooted::from)` desugared to the match that defines them (R-map)",
 ]
-NOT_UNDER_CONTRACT = ["vm/src/lazy.rs force: that stored waiters are fired, the waiter continuation", "channel::resume/yield_/spawn", "the primitive wrapper recv in channel.rs (closure with `_` param is outside Verus's dialect)"]
+NOT_UNDER_CONTRACT = ["vm/src/lazy.rs force: that stored waiters are fired, the waiter continuation", "channel::yield_/spawn and the scheduling of coroutines (poll/wake); of resume only the dead-thread check and the reporting of the outcome"]
 
 
 def v(unit, fn, clause, source=None):
@@ -20,6 +20,11 @@ def obligations(tier):
         v("channel", "Sender::send", "queue' == queue.push(value): appended at the back, nothing else changed", "vm/src/channel.rs::Sender::send"),
         v("channel", "Receiver::try_recv", "empty => Err(()) and queue unchanged (reports emptiness, never blocks); else Ok(queue[0]) and queue' == queue.skip(1)", "vm/src/channel.rs::Receiver::try_recv"),
         v("channel", "send", "the send primitive never raises; Ok => exactly one value, a copy of the argument, appended at the back; Err => queue unchanged (a failed clone is reported, never swallowed)", "vm/src/channel.rs::send"),
+        v("channel", "recv", "the recv primitive never raises and never blocks: empty => Err reported, else the oldest value delivered and removed", "vm/src/channel.rs::recv"),
+        dict(engine="verus", unit="channel", function="resume::report", name="C17/channel/resume_report", source="vm/src/channel.rs::resume (the `match result` block)",
+             clause="resuming a finished (dead) coroutine is reported as an error value; a yield or a completed step is a success; any other failure is raised, never swallowed"),
+        dict(engine="verus", unit="toplevel", function="resume::dead_check", name="C17/thread/resume_dead_check", source="vm/src/thread.rs::Thread::resume (statements before the interpreter is entered)",
+             clause="a coroutine with only its top-level frame left has finished: resume returns Error::Dead and does not enter the interpreter"),
         v("channel", "lemma_fifo", "for every history: received ++ queued == sent (in order, exactly once)", "lemma over the two contracts"),
         v("reference", "set", "Value => cell holds a copy of the argument; Exception => cell unchanged", "vm/src/reference.rs::set"),
         v("reference", "get", "returns exactly the cell content", "vm/src/reference.rs::get"),
